@@ -15,22 +15,33 @@ import (
 )
 
 type input struct {
-	Universe []*txsim.Tx   `json:"universe"`
-	Events   []txsim.Event `json:"events"`
-	EventsB  []txsim.Event `json:"events_b,omitempty"` // C02: second history with the same final facts
-	MinConfs []int64       `json:"minconfs"`
-	SyncOffs []int64       `json:"syncoffs"`
-	Details  bool          `json:"details"`
-	Reopen   []int         `json:"reopen,omitempty"` // event indices after which the store is closed and reopened
+	Universe []*txsim.Tx     `json:"universe"`
+	Events   []txsim.Event   `json:"events"`
+	EventsB  []txsim.Event   `json:"events_b,omitempty"` // C02: second history with the same final facts
+	MinConfs []int64         `json:"minconfs"`
+	SyncOffs []int64         `json:"syncoffs"`
+	Details  bool            `json:"details"`
+	Reopen   []int           `json:"reopen,omitempty"`  // event indices after which the store is closed and reopened
+	Queries  bool            `json:"queries,omitempty"` // C13: block-qualified lookups, full-detail ranges, PreviousPkScripts, GetTransactions
+	QSeed    int64           `json:"qseed,omitempty"`   // selects the query arguments per event
+	GTQ      []txsim.FixedGT `json:"gtq,omitempty"`     // GetTransactions calls named by the case (corpus)
+
+	// C01 / C02 (wallet layer, wider generator)
+	Wallet    bool       `json:"wallet,omitempty"`     // also deliver the history to a real wallet.Wallet through its notification handlers
+	WSeed     int64      `json:"wseed,omitempty"`      // selects the notification order / stale notifications of the translation
+	ListQ     [][2]int64 `json:"listq,omitempty"`      // ListUnspent(minconf, maxconf) calls
+	ZeroValue bool       `json:"zero_value,omitempty"` // the universe has zero-value outputs (outside wf_universe: ledger oracle and model only)
+	BKind     string     `json:"bkind,omitempty"`      // C02: how history B was built (direct | shuffled | perturbed)
 }
 
 type caseOut struct {
-	In     input       `json:"in"`
-	Obs    []txsim.Obs `json:"obs"`             // after each event of Events
-	ObsB   *txsim.Obs  `json:"obs_b,omitempty"` // after the last event of EventsB
-	Oracle []string    `json:"oracle"`
-	Tags   []string    `json:"tags"`
-	Site   string      `json:"site,omitempty"`
+	In     input            `json:"in"`
+	Obs    []txsim.Obs      `json:"obs"`             // after each event of Events
+	ObsB   *txsim.Obs       `json:"obs_b,omitempty"` // after the last event of EventsB
+	Oracle []string         `json:"oracle"`
+	Tags   []string         `json:"tags"`
+	Site   string           `json:"site,omitempty"`
+	W      *txsim.WalletRun `json:"w,omitempty"` // the wallet-level run of Events
 }
 
 func tipOf(f *txsim.Facts) int64 {
@@ -56,7 +67,11 @@ func blockIDs(evs ...[]txsim.Event) txsim.BlockIDs {
 }
 
 func runHistory(u *txsim.Universe, in input, evs []txsim.Event, everyStep bool) ([]txsim.Obs, error) {
-	d, err := txsim.NewDriver(u)
+	newDriver := txsim.NewDriver
+	if in.Queries {
+		newDriver = txsim.NewWalletDriver
+	}
+	d, err := newDriver(u)
 	if err != nil {
 		return nil, err
 	}
@@ -83,10 +98,17 @@ func runHistory(u *txsim.Universe, in input, evs []txsim.Event, everyStep bool) 
 				// a query that fails is itself an observation
 				o.Out.Err = "observe: " + err.Error()
 			}
+			if in.Queries {
+				q, err := d.ObserveQueries(tipOf(f), f, i, in.QSeed, opts.Blocks, in.GTQ)
+				if err != nil && o.Out.Err == "" {
+					o.Out.Err = "observe: " + err.Error()
+				}
+				o.Q = q
+			}
 			if so.Err != "" {
 				o.Out.Err = so.Err
 			}
-			o.Out.Lock, o.Out.Expiry = so.Lock, so.Expiry
+			o.Out.Lock, o.Out.Expiry, o.Out.Refused = so.Lock, so.Expiry, so.Refused
 			out = append(out, o)
 		}
 	}
@@ -155,6 +177,20 @@ func main() {
 				return err
 			}
 			co.Obs = obs
+			if in.Wallet {
+				w, err := txsim.RunWallet(in.Universe, in.Events, in.WSeed, in.MinConfs, in.ListQ,
+					txsim.ObserveOpts{MinConfs: in.MinConfs, SyncOffs: in.SyncOffs, Details: in.Details,
+						Blocks: blockIDs(in.Events, in.EventsB)})
+				if err != nil {
+					return err
+				}
+				co.W = w
+				if w.Skipped != "" {
+					co.Tags = append(co.Tags, "wallet_translation_skipped")
+				} else {
+					co.Tags = append(co.Tags, w.Tags...)
+				}
+			}
 			if len(in.EventsB) > 0 {
 				ob, err := runHistory(u, in, in.EventsB, false)
 				if err != nil {
@@ -167,10 +203,25 @@ func main() {
 				if string(a) != string(b) {
 					co.Oracle = append(co.Oracle, "same_facts_different_observables")
 				}
+				// ... and history A as the WALLET applied it (disconnectBlock ->
+				// Rollback, addRelevantTx) against history B on the bare store
+				if co.W != nil && co.W.Final != nil {
+					a, _ := json.Marshal(stripOut(*co.W.Final))
+					if string(a) != string(b) {
+						co.Oracle = append(co.Oracle, "same_facts_different_observables")
+						co.Site = "wallet"
+					}
+				}
 			}
 			for _, o := range obs {
 				if o.Out.Err != "" {
 					co.Oracle = append(co.Oracle, "store_error_on_consistent_history")
+					break
+				}
+			}
+			for _, o := range obs {
+				if o.Out.Refused != "" {
+					co.Tags = append(co.Tags, "redeliver_refused")
 					break
 				}
 			}
@@ -192,18 +243,76 @@ func main() {
 			r := gen.New(c.Seed, int64(1000+i))
 			s := txsim.NewSim(r)
 			cfg := txsim.GenConfig{MaxTxs: r.Range(3, maxTx), MaxEvents: r.Range(8, maxEv), Leases: mode == "c12" || (mode == "c01" && r.Chance(1, 3))}
+			wide := mode == "c01" || mode == "c02"
+			if wide {
+				// reconnection of detached blocks, reorganisations up to 10
+				// blocks, amounts at the encoding boundaries; C02's leases
+				// (same_facts includes them); a small separate stream with
+				// zero-value outputs
+				cfg.Reconnect, cfg.MaxReorg, cfg.WideAmounts = true, 10, r.Chance(1, 2)
+				if mode == "c02" {
+					cfg.Leases = r.Chance(1, 3)
+					cfg.MoreConflicts = true // the property's second sentence
+				}
+				if mode == "c01" && r.Chance(1, 12) {
+					cfg.ZeroValue = true
+				}
+			}
 			s.Run(cfg)
 			in := input{Universe: s.U.Txs, Events: s.Events, MinConfs: []int64{0, 1, 2, 6, 100, 101}, SyncOffs: []int64{0, 1, 99, 100},
-				Details: mode == "c13" || mode == "c02"}
+				Details: mode == "c13" || mode == "c02", Queries: mode == "c13"}
+			if in.Queries {
+				in.QSeed = int64(r.Intn(1 << 30))
+			}
 			if len(in.Events) == 0 {
 				continue
 			}
+			var extraTags []string
+			if mode == "c01" {
+				// minconf 0 and 1 always, four more from below, at and beyond
+				// the coinbase maturity and beyond every chain height
+				in.MinConfs = []int64{0, 1}
+				rest := []int64{2, 6, 99, 100, 101, 102, 103, 150, 1000000}
+				for k := 0; k < 4; k++ {
+					j := r.Intn(len(rest))
+					in.MinConfs = append(in.MinConfs, rest[j])
+					rest = append(rest[:j], rest[j+1:]...)
+				}
+				sort.Slice(in.MinConfs, func(a, b int) bool { return in.MinConfs[a] < in.MinConfs[b] })
+				in.ZeroValue = cfg.ZeroValue
+			}
 			if mode == "c02" {
-				in.MinConfs, in.SyncOffs = []int64{0, 1, 6, 100}, []int64{0, 100}
-				in.EventsB = directHistory(s.U, s.Events)
+				in.MinConfs, in.SyncOffs = []int64{0, 1, 2, 6, 99, 100, 101, 102, 103, 150, 1000000}, []int64{0, 100}
+				var btags []string
+				switch r.Pick(1, 3, 3) {
+				case 1:
+					in.EventsB, btags = txsim.ShuffledB(s.U, s.Events, r)
+					in.BKind = "shuffled"
+				case 2:
+					in.EventsB, btags = txsim.PerturbedB(s.U, s.Events, r)
+					in.BKind = "perturbed"
+				}
+				if in.BKind == "" || len(in.EventsB) == 0 || !txsim.SamePair(s.U, in.Events, in.EventsB) {
+					if in.BKind != "" {
+						extraTags = append(extraTags, "b_"+in.BKind+"_rejected")
+					}
+					in.EventsB, btags, in.BKind = txsim.DirectB(s.U, s.Events), nil, "direct"
+				}
 				if len(in.EventsB) == 0 {
 					continue
 				}
+				if !txsim.SamePair(s.U, in.Events, in.EventsB) {
+					// e.g. a lease that outlived its output: no second history
+					// with these raw leases is constructed
+					s.Tags["pair_not_constructible"]++
+					continue
+				}
+				extraTags = append(extraTags, btags...)
+				extraTags = append(extraTags, "b_"+in.BKind)
+			}
+			if wide && r.Chance(1, 4) {
+				in.Wallet, in.WSeed = true, int64(r.Intn(1<<30))
+				in.ListQ = [][2]int64{{0, 9999999}, {1, 9999999}, {0, 0}, {2, 99}, {100, 150}}
 			}
 			if mode == "c12" && r.Chance(1, 2) && len(in.Events) > 2 {
 				in.Reopen = []int{r.Range(0, len(in.Events)-1)}
@@ -214,6 +323,7 @@ func main() {
 					tags = append(tags, k)
 				}
 			}
+			tags = append(tags, extraTags...)
 			sort.Strings(tags)
 			if err := runCase(in, tags); err != nil {
 				return err
@@ -230,5 +340,9 @@ func stripOut(o txsim.Obs) txsim.Obs {
 	o.Sorted = nil
 	o.Ranges = nil // within-block order depends on delivery order
 	o.RangeQ = nil
+	o.Q = nil
+	// the property names balances, spendable outputs and transaction details;
+	// the watch, unmined and lease lists are C13's / C12's subject
+	o.Watch, o.Unmined, o.Locked, o.Unique = nil, nil, nil, nil
 	return o
 }
